@@ -22,7 +22,7 @@ func i64(i int) int64 {
 }
 
 // message M { int64 a = 1; uint32 b = 2; string c = 3; bool d = 4; sint64 e = 7; fixed64 f = 9; bytes g = 10;
-//             Inner in = 11; repeated int32 r = 12; Inner p = 13 (held through a pointer); } message Inner { int32 x = 1; string y = 2; }
+//             Inner in = 11; repeated int32 r = 12; Inner p = 13 (held through a pointer); bytes k = 14 (a Go [7]byte); } message Inner { int32 x = 1; string y = 2; }
 type Inner struct {
 	X int32
 	Y string
@@ -39,6 +39,7 @@ type M struct {
 	In Inner  `protobuf:"bytes,11,opt,name=in"`
 	R  []int32 `protobuf:"varint,12,rep,name=r"`
 	P  *Inner  `protobuf:"bytes,13,opt,name=p"`
+	K  [7]byte `protobuf:"bytes,14,opt,name=k"`
 }
 
 func mkM() M {
@@ -49,6 +50,10 @@ func mkM() M {
 	}
 	if vfBool() {
 		m.P = &Inner{X: int32(int8(vfByte())), Y: vfString(vfLen)}
+	}
+	if vfBool() { // one or two non-zero bytes, the last one among them
+		m.K[vfIntIn(0, 6)] = vfByte()
+		m.K[6] = vfByte()
 	}
 	return m
 }
@@ -154,6 +159,7 @@ func eqM(a, b M) {
 	vfAssert(string(a.G) == string(b.G), "M.g")
 	vfAssert(a.In.X == b.In.X, "M.in.x")
 	vfAssert(a.In.Y == b.In.Y, "M.in.y")
+	vfAssert(a.K == b.K, "M.k")
 	vfAssert((a.P == nil) == (b.P == nil), "M.p-presence")
 	if a.P != nil && b.P != nil {
 		vfAssert(a.P.X == b.P.X, "M.p.x")
@@ -234,6 +240,13 @@ func vfH_c12_encode() {
 			ok = n >= 0
 			back.R = append(back.R, int32(v))
 			b = b[max(n, 0):]
+		case num == 14 && typ == protowire.BytesType:
+			v, n := protowire.ConsumeBytes(b)
+			ok = n >= 0 && len(v) == 7
+			if ok {
+				copy(back.K[:], v)
+			}
+			b = b[max(n, 0):]
 		case num == 13 && typ == protowire.BytesType:
 			v, n := protowire.ConsumeBytes(b)
 			ok = n >= 0
@@ -271,6 +284,17 @@ func vfH_c12_decode() {
 		}
 		return protowire.AppendVarint(b, v)
 	}
+	lenPfx := func(b []byte, payload []byte) []byte { // length-delimited payload; mode 2: non-minimal length varint
+		b = pad(b, uint64(len(payload)))
+		return append(b, payload...)
+	}
+	fK := func(b []byte) []byte {
+		if m.K == ([7]byte{}) {
+			return b
+		}
+		b = protowire.AppendTag(b, 14, protowire.BytesType)
+		return lenPfx(b, m.K[:])
+	}
 	fA := func(b []byte) []byte {
 		b = protowire.AppendTag(b, 1, protowire.VarintType)
 		return pad(b, uint64(m.A))
@@ -281,7 +305,7 @@ func vfH_c12_decode() {
 	}
 	fC := func(b []byte) []byte {
 		b = protowire.AppendTag(b, 3, protowire.BytesType)
-		return protowire.AppendString(b, m.C)
+		return lenPfx(b, []byte(m.C))
 	}
 	fD := func(b []byte) []byte {
 		b = protowire.AppendTag(b, 4, protowire.VarintType)
@@ -301,7 +325,7 @@ func vfH_c12_decode() {
 	}
 	fG := func(b []byte) []byte {
 		b = protowire.AppendTag(b, 10, protowire.BytesType)
-		return protowire.AppendBytes(b, m.G)
+		return lenPfx(b, m.G)
 	}
 	fIn := func(b []byte) []byte {
 		if vfMode == 4 {
@@ -322,7 +346,7 @@ func vfH_c12_decode() {
 		p = protowire.AppendTag(p, 2, protowire.BytesType)
 		p = protowire.AppendString(p, m.In.Y)
 		b = protowire.AppendTag(b, 11, protowire.BytesType)
-		return protowire.AppendBytes(b, p)
+		return lenPfx(b, p)
 	}
 	fP := func(b []byte) []byte {
 		if m.P == nil {
@@ -363,7 +387,7 @@ func vfH_c12_decode() {
 	switch vfMode {
 	case 1:
 		// reverse order
-		b = fA(fB(fC(fD(fE(fF(fG(fIn(fR(fP(nil))))))))))
+		b = fA(fB(fC(fD(fE(fF(fG(fIn(fR(fP(fK(nil)))))))))))
 	case 3:
 		// each scalar first with another value, then with the right one
 		b = protowire.AppendTag(b, 1, protowire.VarintType)
@@ -372,7 +396,7 @@ func vfH_c12_decode() {
 		b = protowire.AppendString(b, "zz")
 		b = protowire.AppendTag(b, 4, protowire.VarintType)
 		b = protowire.AppendVarint(b, 1)
-		b = fP(fR(fIn(fG(fF(fE(fD(fC(fB(fA(b))))))))))
+		b = fK(fP(fR(fIn(fG(fF(fE(fD(fC(fB(fA(b)))))))))))
 	default:
 		b = fA(b)
 		b = unk(b)
@@ -386,6 +410,7 @@ func vfH_c12_decode() {
 		b = fIn(b)
 		b = fR(b)
 		b = fP(b)
+		b = fK(b)
 		b = unk(b)
 	}
 	var got M
